@@ -19,6 +19,7 @@ def wire_family(ctx, prop, scenarios, rule, nontrivial=None, observe_props=None)
         ids.add(s['id'])
     traces = vt.run_harness(ctx, scenarios, prop)
     by_id = {s['id']: s for s in scenarios}
+    traces = traces + vt.adjudicate_hangs(ctx, by_id, prop)
     evs = vt.read_traces(traces)
     ctx.evaluations += len(scenarios)
     for sid, es in evs.items():
@@ -255,6 +256,9 @@ def check_C03(ctx):
     engines(ctx, 'C03', par, ser, ['C03'])
     rule = ctx_rule(ctx)
     scen = vt.tlc_generate(ctx, 'GenWire', 'C06', 0) + vt.tlc_generate(ctx, 'GenWire', 'C04', 0 if not ctx.quick() else 150)
+    # the shape on a busy host: steady streams of packets that are not replies (GenWire!C09Flood), the destination at TTL 4
+    for f in [x for x in vt.tlc_generate(ctx, 'GenWire', 'C09', 0) if '/flood/' in x['id']]:
+        f = dict(f); f.pop('twin', None); f['id'] = f['id'].replace('C09/', 'C03/busy/'); scen.append(f)
     wire_family(ctx, 'C03', scen, rule, nontrivial=delivered_something)
     ctx.extra['rule'] = rule + '; plus the wire-level C06All/C04All scenarios with the shape formula evaluated on the protocol entry points'
     vt.write_evidence(ctx, 'model_checking', ctx_rule(ctx), exhaustive=True)
@@ -299,6 +303,10 @@ def check_C08(ctx):
     # stalled HTTP providers / resolvers: the provider scripts of Enrich!PubAll, the slow-resolver documents of GenDoc!C18All
     scen += pub_scenarios(ctx)
     scen += vt.tlc_generate(ctx, 'GenDoc', 'C08', 0)         # stalled resolvers (real clock)
+    # whatever arrives, the call returns: the single-field perturbation lattice of C01All for the serial engine (which runs without a
+    # caller's context: nothing but its own bound ends it)
+    c01 = [s for s in vt.tlc_generate(ctx, 'GenWire', 'C01', 0) if s['variant'] in ('tcp', 'tcp_paris')]
+    scen += c01[ctx.seed % 2::2] if ctx.quick() else c01
     wire_family(ctx, 'C08', scen, rule, nontrivial=lambda s, es: True)
     # on the real kernel: a target that silently drops the SYN of the SACK attempt (KernelPath!C08Lab)
     lab_family(ctx, 'C08', 'C08')
@@ -401,7 +409,10 @@ def check_C10(ctx):
     # rejected TCP-over-IPv6 requests (handles opened before the rejection are closed)
     scen += [x for x in vt.tlc_generate(ctx, 'GenRun', 'C20', 0) if x.get('faults')]
     scen += [x for x in vt.tlc_generate(ctx, 'GenRun', 'C19', 0) if x['run']['protocol'] == 'tcp' and '2001:' in x['run']['hostname'] and x['run'].get('via', 'lib') == 'lib'][:12]
-    wire_family(ctx, 'C10', scen, rule, nontrivial=lambda s, es: any(e['event'] == 'Fault' for e in es))
+    # ... and the enrichment services misbehaving (slow / failing / stalled resolver and public-IP provider): nothing outlives the call
+    enr = vt.tlc_generate(ctx, 'GenRun', 'C10', 0)
+    scen += enr[ctx.seed % 2::2] if ctx.quick() else enr
+    wire_family(ctx, 'C10', scen, rule, nontrivial=lambda s, es: any(e['event'] == 'Fault' for e in es) or '/enrich/' in s['id'])
     ctx.extra['rule'] = rule + '; plus ' + (WIRE_RULE % 'C10All (the k-th call of every Source/Sink operation and constructor x error class, on every protocol entry point)') + '; non-trivial = the fault fired'
     vt.write_evidence(ctx, 'model_checking', ctx_rule(ctx), exhaustive=True)
 
